@@ -187,7 +187,8 @@ func checkCtorSkeleton(c *Ctx, r *Rec, info *types.Info, fd *ast.FuncDecl, kind 
 	}
 	construct := c.fdName(fd)
 	if final == nil || len(kindVars) == 0 {
-		r.undecided("D5-dispatch-skeleton", construct, c.pos(fd.Pos()), "the constructor is not `type switch over the arguments; tagless switch over the kinds found`")
+		r.skip("D5-dispatch-skeleton", construct, c.pos(fd.Pos()), "the constructor is not `type switch over the arguments; tagless switch over the kinds found`: the skeleton rules are bound to that design")
+		r.skip("D3-source-branch", construct, c.pos(fd.Pos()), "no dispatch skeleton to find the source arm in")
 		return
 	}
 	// the class variable:  class := col.X[...](notation)
@@ -324,15 +325,18 @@ func checkCtorSkeleton(c *Ctx, r *Rec, info *types.Info, fd *ast.FuncDecl, kind 
 
 	// ---- D3 source branch
 	if sourceArm == nil {
-		r.undecided("D3-source-branch", construct, c.pos(fd.Pos()), "no arm guarded by the CDCN source string")
+		r.skip("D3-source-branch", construct, c.pos(fd.Pos()), "no arm guarded by the CDCN source string")
 		return
 	}
 	bad := ""
 	var loop *ast.ForStmt
 	for _, s := range sourceArm.Body {
-		if fs, ok := s.(*ast.ForStmt); ok {
-			loop = fs
-		}
+		inspectNoLit(s, func(y ast.Node) bool {
+			if fs, ok := y.(*ast.ForStmt); ok && loop == nil {
+				loop = fs
+			}
+			return true
+		})
 	}
 	parses := false
 	for _, s := range sourceArm.Body {
@@ -345,9 +349,36 @@ func checkCtorSkeleton(c *Ctx, r *Rec, info *types.Info, fd *ast.FuncDecl, kind 
 	}
 	switch {
 	case !parses:
-		bad = "the source branch does not parse the source with the notation"
+		bad = "skip: the source branch does not call ParseSource itself"
 	case loop == nil:
-		bad = "the source branch has no loop over the parsed items"
+		// the conversion may live in a helper: it must fold the parsed items, in order, into a list
+		bad = "skip: the source branch has no loop over the parsed items and no helper that is recognised as an in-order conversion"
+		for _, s := range sourceArm.Body {
+			ast.Inspect(s, func(y ast.Node) bool {
+				call, ok := y.(*ast.CallExpr)
+				if !ok {
+					return true
+				}
+				cf := calleeOf(info, call)
+				if cf == nil || cf.Exported() {
+					return true
+				}
+				hd := c.declOf(cf.Origin())
+				if hd == nil || hd.Body == nil {
+					return true
+				}
+				seq, why := segmentsOf(c, c.infoFor(hd), hd)
+				if why != "" {
+					return true
+				}
+				if len(seq) == 1 && strings.HasPrefix(seq[0], "p") && !strings.HasSuffix(seq[0], "?") {
+					bad = ""
+				} else {
+					bad = fmt.Sprintf("the helper %s that converts the parsed items builds its result from the segments %v: not every parsed item exactly once, in order", cf.Name(), seq)
+				}
+				return true
+			})
+		}
 	default:
 		// the element operation in the loop
 		var opRecv types.Object
@@ -362,7 +393,7 @@ func checkCtorSkeleton(c *Ctx, r *Rec, info *types.Info, fd *ast.FuncDecl, kind 
 		})
 		switch {
 		case opRecv == nil:
-			bad = "no element operation in the loop over the parsed items"
+			bad = "skip: no element operation in the loop over the parsed items"
 		case opRecv == resultObj:
 			if !direct[opName] {
 				bad = fmt.Sprintf("the parsed items are applied one by one with %s, which for a %s does not yield the order the parser builds (the parser hands the sequence to MakeFromSequence; %s(\"[1, 2, 3](%s)\") comes out as [3 2 1])", opName, kind, kind, kind)
@@ -378,10 +409,12 @@ func checkCtorSkeleton(c *Ctx, r *Rec, info *types.Info, fd *ast.FuncDecl, kind 
 					return true
 				})
 			}
-			if opName != "AppendValue" || !handed {
-				bad = "the converted items are not collected in order (AppendValue) and handed to the class's MakeFromSequence"
+			if opName != "AppendValue" {
+				bad = "the converted items are not collected in order (AppendValue) before they are handed to the class's MakeFromSequence"
+			} else if !handed {
+				bad = "skip: the list of converted items is not visibly handed to the class's MakeFromSequence"
 			}
 		}
 	}
-	r.check(bad == "", "D3-source-branch", construct, c.pos(sourceArm.Pos()), "order-equivalent to what the parser builds for this kind", bad)
+	r.verdict("D3-source-branch", construct, c.pos(sourceArm.Pos()), "order-equivalent to what the parser builds for this kind", bad)
 }
